@@ -498,8 +498,8 @@ class BytesIO(IOBase):
         with self._lock:
             for cmd, replylen, delay in requests:
                 replies.append(self.communicate(cmd, replylen))
-            if delay:
-                time.sleep(delay)
+                if delay:
+                    time.sleep(delay)
         return replies
 
     def readBytes(self, nbytes):
